@@ -358,7 +358,12 @@ func runProbe(p probe, pers []*persLogger) []byte {
 		}
 		done <- probeBody(p, l)
 	}()
-	pan := <-done
+	var pan string
+	select {
+	case pan = <-done:
+	case <-time.After(120 * time.Second):
+		return []byte("\x00PROBE-DID-NOT-RETURN\x00")
+	}
 	res := append([]byte{}, out.buf...)
 	res = append(res, "\x00ERROUT\x00"...)
 	res = append(res, eo.buf...)
@@ -731,6 +736,11 @@ func around(b []byte, at int) string {
 }
 
 func compare(r *ev.Run, id string, p probe, got, want []byte, recent []string, mode string) bool {
+	if bytes.Equal(got, []byte("\x00PROBE-DID-NOT-RETURN\x00")) {
+		// a wall-clock limit is never a verdict
+		r.Inconclusive(fmt.Sprintf("%s: probe %q did not return within 120s (%s)", id, p.name, mode))
+		return false
+	}
 	r.Count("probe_comparisons", 1)
 	r.Count("bytes_compared", int64(len(got)))
 	if bytes.Equal(got, want) {
@@ -815,7 +825,7 @@ func history(r *ev.Run, i int, base map[int][]byte) {
 }
 
 // concurrent runs background histories on other loggers while probes are compared.
-func concurrent(r *ev.Run, i int, base map[int][]byte) {
+func concurrent(r *ev.Run, i int, base map[int][]byte) bool {
 	id := fmt.Sprintf("c08/conc/%d", i)
 	g := rng.For(r.Seed, "c08/conc", i)
 	nbg := g.Range(2, 6)
@@ -855,9 +865,19 @@ func concurrent(r *ev.Run, i int, base map[int][]byte) {
 		r.Count("concurrent_probe_comparisons", 1)
 	}
 	stop.Store(true)
-	wg.Wait()
+	bgDone := make(chan struct{})
+	go func() { wg.Wait(); close(bgDone) }()
+	select {
+	case <-bgDone:
+	case <-time.After(90 * time.Second):
+		// a background history never returned from a log call: not something this property decides,
+		// and not worth the outer 30-minute watchdog
+		r.Inconclusive(id + ": a background history did not return from a logging operation within 90s")
+		return false
+	}
 	r.Eval(1)
 	r.Distinct(fmt.Sprintf("conc|%d|%d|%d", i, nbg, nprobes))
+	return ok
 }
 
 // Child dispatches baseline / sequential / concurrent workers.
@@ -885,8 +905,8 @@ func Child(r *ev.Run, args []string) {
 		for i := lo; i < hi && r.Violations() == 0; i++ {
 			if args[0] == "seq" {
 				history(r, i, base)
-			} else {
-				concurrent(r, i, base)
+			} else if !concurrent(r, i, base) {
+				break
 			}
 		}
 	}
